@@ -513,6 +513,23 @@ func TestVerifC21Hook(t *testing.T) {
 	// and are judged one by one.
 	batch := kit.EnvInt("C21_BATCH", 6)
 
+	// The server's own environment may already hold variables named like hook variables (e.g. when it is launched
+	// from another instance's hook or from a wrapper script): the values passed to the hook must win. Give the
+	// test process a decoy value for every hook variable name the generator uses.
+	for _, n := range c21VarNames {
+		n := n
+		old, had := os.LookupEnv(n)
+		os.Setenv(n, "verif-parent-decoy-"+n) //nolint:errcheck
+		t.Cleanup(func() {
+			if had {
+				os.Setenv(n, old) //nolint:errcheck
+			} else {
+				os.Unsetenv(n) //nolint:errcheck
+			}
+		})
+	}
+	rec.Note("the test process environment holds a decoy value for every hook variable name")
+
 	rapid.Check(t, func(t *rapid.T) {
 		cases := make([]c21Case, batch)
 		for i := range cases {
